@@ -458,7 +458,20 @@ func (x *Exec) localVar(env *SpecEnv, name string) (Val, bool, error) {
 			if env.li != nil && !a.Block().Dominates(env.li.header) {
 				continue
 			}
-			if best == nil || a.Pos() > best.Pos() {
+			// several variables of that name may be in scope (shadowing, the hidden "rangeindex"
+			// of consecutive range loops): take the innermost / latest one, i.e. the one declared
+			// in the block that is deepest in the dominator tree, later instruction on ties
+			switch {
+			case best == nil:
+				best = a
+			case a.Block() == best.Block():
+				if instrIndex(a) > instrIndex(best) {
+					best = a
+				}
+			case best.Block().Dominates(a.Block()):
+				best = a
+			case a.Block().Dominates(best.Block()):
+			case a.Pos() > best.Pos():
 				best = a
 			}
 		}
@@ -779,6 +792,10 @@ func (x *Exec) evalQuant(q *EQuant, env *SpecEnv) (Val, error) {
 			sortS = "Iface"
 		case "intarr":
 			sortS = arraySort(vc.ar.IdxSort(), SInt)
+		case "ifacearr":
+			sortS = arraySort(vc.ar.IdxSort(), "Iface")
+		case "boolarr":
+			sortS = arraySort(vc.ar.IdxSort(), SBool)
 		case "bytearr":
 			sortS = arraySort(vc.ar.IdxSort(), vc.ar.Sort(IntKind{8, false}))
 		case "bseq":
@@ -977,6 +994,42 @@ func (x *Exec) evalCall(c *ECall, env *SpecEnv) (Val, error) {
 			}
 		}
 		return Val{}, fmt.Errorf("len of sort %s", v.T.Sort)
+	case "sliceof":
+		// sliceof(T, s): view the (untyped) slice value s as a []T
+		if err := argN(2); err != nil {
+			return Val{}, err
+		}
+		ty, err := x.typeExpr(c.Args[0], env)
+		if err != nil {
+			return Val{}, err
+		}
+		v, err := x.evalSpec(c.Args[1], env)
+		if err != nil {
+			return Val{}, err
+		}
+		if v.T.Sort != "Slice" {
+			return Val{}, fmt.Errorf("sliceof() needs a slice value")
+		}
+		return Val{T: v.T, Typ: types.NewSlice(ty)}, nil
+	case "hasmap":
+		// hasmap(m): the key set of map m as an SMT array key -> Bool (empty for a nil map is not
+		// implied: callers state m != nil where it matters)
+		if err := argN(1); err != nil {
+			return Val{}, err
+		}
+		m, err := x.evalSpec(c.Args[0], env)
+		if err != nil {
+			return Val{}, err
+		}
+		if m.Typ == nil {
+			return Val{}, fmt.Errorf("hasmap() needs a map")
+		}
+		mt, ok := m.Typ.Underlying().(*types.Map)
+		if !ok {
+			return Val{}, fmt.Errorf("hasmap() needs a map")
+		}
+		hk, hs, _, _ := vc.mapKeys(mt)
+		return Val{T: Select(vc.heapGet(env.st, hk, hs), m.T)}, nil
 	case "has":
 		if err := argN(2); err != nil {
 			return Val{}, err
@@ -1541,4 +1594,13 @@ func (x *Exec) evalLoc(e Expr, env *SpecEnv) (*Loc, error) {
 		curT = ft
 	}
 	return loc, nil
+}
+
+func instrIndex(in ssa.Instruction) int {
+	for i, x := range in.Block().Instrs {
+		if x == in {
+			return i
+		}
+	}
+	return -1
 }
